@@ -74,6 +74,8 @@ func main() {
 		err = runSkeleton(in, w)
 	case "show":
 		err = runShow(in, w)
+	case "si": // development: compile stdin as main.proto in the four modes, print the commented locations
+		err = runSI(w)
 	case "parse": // development: parse stdin as one file, print the round trip verdict
 		err = runParse(w)
 	default:
